@@ -398,66 +398,71 @@ def hitCopyLoop (g : HitIn F) (f : Nat → M Nat) : Nat → Nat → Pat → M Pa
       hitCopyLoop g f k (i + 1) pat'
     else hitCopyLoop g f k (i + 1) pat
 
+/-- `prev_pattern.hit_objects.last().map_or(0, |h| ManiaObject::column(h.pos.x, total) as u8)` -/
+def hitLastColumn (g : HitIn F) : Nat :=
+  match g.prev.notes.getLast? with
+  | none => 0
+  | some n => posColumn g.total n.col % 256
+
+/-- the tail of `generate_core()`: `KEEP_SINGLE`, then the dispatch on `MIRROR`, the conversion
+difficulty and `LOW_PROBABILITY` -/
+def hitCoreRandom (A : PArith F) (g : HitIn F) (s : Osu) : M (Pat × Osu) :=
+  if has g.ct KEEP_SINGLE then hitRandomNotes A g 1 s
+  else if has g.ct MIRROR then
+    if A.gt g.cd (A.pct 650) then hitMirrored A g (A.pct 12) (A.pct 38) (A.pct 12) s
+    else if A.gt g.cd (A.pct 400) then hitMirrored A g (A.pct 12) (A.pct 17) (A.pct 0) s
+    else hitMirrored A g (A.pct 12) (A.pct 0) (A.pct 0) s
+  else if A.gt g.cd (A.pct 650) then
+    if has g.ct LOW_PROBABILITY then hitRandomPattern A g (A.pct 78) (A.pct 42) (A.pct 0) (A.pct 0) s
+    else hitRandomPattern A g (A.pct 100) (A.pct 62) (A.pct 0) (A.pct 0) s
+  else if A.gt g.cd (A.pct 400) then
+    if has g.ct LOW_PROBABILITY then hitRandomPattern A g (A.pct 35) (A.pct 8) (A.pct 0) (A.pct 0) s
+    else hitRandomPattern A g (A.pct 52) (A.pct 15) (A.pct 0) (A.pct 0) s
+  else if A.gt g.cd (A.pct 200) then
+    if has g.ct LOW_PROBABILITY then hitRandomPattern A g (A.pct 18) (A.pct 0) (A.pct 0) (A.pct 0) s
+    else hitRandomPattern A g (A.pct 45) (A.pct 0) (A.pct 0) (A.pct 0) s
+  else hitRandomPattern A g (A.pct 0) (A.pct 0) (A.pct 0) (A.pct 0) s
+
+/-- `generate_core()` after the `total_columns == 1` case; `last` is `last_column`, `t8` is
+`total_columns as u8`, `rs` is `random_start as u8` -/
+def hitCoreSpecial (A : PArith F) (g : HitIn F) (last t8 rs : Nat) (s : Osu) : M (Pat × Osu) :=
+  if has g.ct REVERSE && !g.prev.notes.isEmpty then do
+    -- `random_start + total as u8 - i - 1`
+    let p ← hitCopyLoop g (fun i => do
+      let a ← u8add rs t8
+      let b ← u8sub a i
+      u8sub b 1) (t8 - rs) rs Pat.empty
+    .ok (p, s)
+  else if has g.ct CYCLE && g.prev.notes.length = 1
+      && (g.total != 8 || last != 0)
+      && (g.total % 2 = 0 || last != t8 / 2) then do
+    let a ← u8add rs t8
+    let b ← u8sub a last
+    let c ← u8sub b 1
+    let p ← Pat.single c .atObject
+    .ok (p, s)
+  else if has g.ct FORCE_STACK && !g.prev.notes.isEmpty then do
+    let p ← hitCopyLoop g (fun i => .ok i) (t8 - rs) rs Pat.empty
+    .ok (p, s)
+  else if g.prev.notes.length = 1 && has g.ct STAIR then do
+    let t ← u8add last 1
+    let p ← Pat.single (if t = t8 then rs else t) .atObject
+    .ok (p, s)
+  else if g.prev.notes.length = 1 && has g.ct REVERSE_STAIR then do
+    -- `last_column as i8 - 1`, `random_start as i8 - 1`, `total_columns as i8 - 1`
+    let t ← i8sub (asI8 last) 1
+    let r ← i8sub (asI8 rs) 1
+    let t ← (if t = r then i8sub (asI8 g.total) 1 else .ok t : M Int)
+    let p ← Pat.single (asU8 t) .atObject
+    .ok (p, s)
+  else hitCoreRandom A g s
+
 /-- `generate_core()` -/
 def hitGenerateCore (A : PArith F) (g : HitIn F) (s : Osu) : M (Pat × Osu) :=
   if g.total = 1 then do
     let p ← Pat.single 0 .atObject
     .ok (p, s)
-  else
-    let total8 := g.total % 256
-    let lastColumn : Nat :=
-      match g.prev.notes.getLast? with
-      | none => 0
-      | some n => posColumn g.total n.col % 256
-    let rs := randomStart g.total
-    if has g.ct REVERSE && !g.prev.notes.isEmpty then do
-      -- `random_start + total as u8 - i - 1`
-      let p ← hitCopyLoop g (fun i => do
-        let a ← u8add rs total8
-        let b ← u8sub a i
-        u8sub b 1) (total8 - rs) rs Pat.empty
-      .ok (p, s)
-    else if has g.ct CYCLE && g.prev.notes.length = 1
-        && (g.total != 8 || lastColumn != 0)
-        && (g.total % 2 = 0 || lastColumn != total8 / 2) then do
-      let a ← u8add rs total8
-      let b ← u8sub a lastColumn
-      let c ← u8sub b 1
-      let p ← Pat.single c .atObject
-      .ok (p, s)
-    else if has g.ct FORCE_STACK && !g.prev.notes.isEmpty then do
-      let p ← hitCopyLoop g (fun i => .ok i) (total8 - rs) rs Pat.empty
-      .ok (p, s)
-    else if g.prev.notes.length = 1 && has g.ct STAIR then do
-      let t ← u8add lastColumn 1
-      let t := if t = total8 then rs else t
-      let p ← Pat.single t .atObject
-      .ok (p, s)
-    else if g.prev.notes.length = 1 && has g.ct REVERSE_STAIR then do
-      -- `last_column as i8 - 1`, `random_start as i8 - 1`, `total_columns as i8 - 1`
-      let t ← i8sub (asI8 lastColumn) 1
-      let r ← i8sub (asI8 rs) 1
-      let t ← if t = r then i8sub (asI8 g.total) 1 else .ok t
-      let p ← Pat.single (asU8 t) .atObject
-      .ok (p, s)
-    else if has g.ct KEEP_SINGLE then hitRandomNotes A g 1 s
-    else
-      let z := A.pct 0
-      let low := has g.ct LOW_PROBABILITY
-      if has g.ct MIRROR then
-        if A.gt g.cd (A.pct 650) then hitMirrored A g (A.pct 12) (A.pct 38) (A.pct 12) s
-        else if A.gt g.cd (A.pct 400) then hitMirrored A g (A.pct 12) (A.pct 17) z s
-        else hitMirrored A g (A.pct 12) z z s
-      else if A.gt g.cd (A.pct 650) then
-        if low then hitRandomPattern A g (A.pct 78) (A.pct 42) z z s
-        else hitRandomPattern A g (A.pct 100) (A.pct 62) z z s
-      else if A.gt g.cd (A.pct 400) then
-        if low then hitRandomPattern A g (A.pct 35) (A.pct 8) z z s
-        else hitRandomPattern A g (A.pct 52) (A.pct 15) z z s
-      else if A.gt g.cd (A.pct 200) then
-        if low then hitRandomPattern A g (A.pct 18) z z z s
-        else hitRandomPattern A g (A.pct 45) z z z s
-      else hitRandomPattern A g z z z z s
+  else hitCoreSpecial A g (hitLastColumn g) (g.total % 256) (randomStart g.total) s
 
 /-- the stair bookkeeping of `generate()`: for every generated object, in order -/
 def stairAfter (total ct : Nat) (stair : Nat) (notes : List Note) : Nat :=
